@@ -254,6 +254,26 @@ pub fn run(ctx: &Ctx) -> i32 {
         }
     }
     let _ = TVal::Bool(true);
+    // nesting far beyond any limit (1e3 .. 2e5 levels through struct / list / map-value hops, sync
+    // and async, all protocols) on a 2 MiB stack in a child process: the generic skipper must
+    // come back (C07 decides *what* it answers), the process must not die
+    {
+        let exe = std::env::current_exe().unwrap();
+        if let Ok(o) = std::process::Command::new(exe).args(["C07", "--deep-probe"]).output() {
+            let so = String::from_utf8_lossy(&o.stdout).to_string();
+            {
+                let mut r = rec.borrow_mut();
+                r.case(fp(&"deep-probe"), true, || json!("nesting chains of 1e3, 2e4, 2e5 levels x {struct, list, map value} x {binary, LE, compact, unchecked} x {sync, async} skipped in a 2 MiB-stack child"));
+                r.class("deep nesting probe (child process)");
+            }
+            if o.status.code().is_none() || (!o.status.success() && !so.contains("DEEP-FAIL")) {
+                let f = Fail::new("deep-nesting-crash", format!("the child process skipping deeply nested input died: status {:?}\nstdout {}\nstderr {}", o.status, vcore::evidence::truncate(&so, 600), vcore::evidence::truncate(&String::from_utf8_lossy(&o.stderr), 600)));
+                if !ctx.findings.is_open("C09", &f.key) {
+                    report(ctx, &rec, "deep", &json!({"probe": "deep"}), &f);
+                }
+            }
+        }
+    }
     if rec.borrow().violations.is_empty() {
         if let Some(c) = require_classes(&rec, &["random bytes", "truncation", "bit flip", "overwrite MinusOne", "overwrite RemPlus1", "overwrite I32Max", "overwrite U32Max", "type byte", "envelope"]) {
             rec.borrow().finish(&ctx.findings);
